@@ -362,3 +362,15 @@ Proof.
   apply dv_start_inv in Hst as (_ & ac & h & _ & _ & _ & ->).
   apply dv_steps_window in Hsteps as (_ & eqs & Hf). exists eqs. exact Hf.
 Qed.
+
+(* purging a lender's balance: only the risk admin, only on a bank whose tokenless repayments are complete *)
+Theorem purge_guard w a b signs w' :
+  dv_purge w a b signs = Ok w' ->
+  signs = true /\ exists hb, nth_bank w b = Ok hb /\ get_flag (b_flags (hb_b hb)) TOKENLESS_REPAYMENTS_COMPLETE = true.
+Proof.
+  unfold dv_purge. intros H.
+  apply bind_ok in H as (u & Hs & H). apply check_inv_d in Hs.
+  apply bind_ok in H as (hb & Hb & H). apply bind_ok in H as (ac & _ & H).
+  apply bind_ok in H as (u1 & _ & H). apply bind_ok in H as (u2 & Hf & H). apply check_inv_d in Hf.
+  split; [exact Hs|]. exists hb. split; [exact Hb | exact Hf].
+Qed.
